@@ -548,13 +548,22 @@ class Eng:
             lam = 1
         return M.proj(P, lam)
 
-    def battery_pair(self, P, Q, rp, rq):
+    def battery_pair(self, P, Q, rp, rq, aa="with"):
+        """aa: 'with' = function table + direct affine functions, 'no' = table only, 'only' = affine only"""
         M = self.M
         cls = pair_cls(M, P, Q)
-        A3, B3 = self.enc3(rp), self.enc3(rq)
         e_add, e_sub = M.add(P, Q), M.sub(P, Q)
         det = {"P": P, "Q": Q, "rep_P": rp, "rep_Q": rq}
         res = []
+        if aa == "only":
+            if P is not None and Q is not None:
+                A2, B2 = self.enc2(P), self.enc2(Q)
+                for which, exp in (("AddAA", e_add), ("SubAA", e_sub)):
+                    got = self.op_aa(which, A2, B2)
+                    self.cmp(self.pre + which, exp, got, cls, "none", det)
+                    res.append(got)
+            return cls, res
+        A3, B3 = self.enc3(rp), self.enc3(rq)
         for op, exp in (("add", e_add), ("sub", e_sub)):
             for al in ("none", "c=a", "c=b") + (("a=b",) if P == Q else ()):
                 exp1 = exp
@@ -568,7 +577,7 @@ class Eng:
                     got = self.op_pa(op, A3, B2, al, cls)
                     self.cmp(op, exp, got, cls, al, det)
                     res.append(got)
-            if P is not None:
+            if P is not None and aa == "with":
                 A2 = self.enc2(P)
                 for which, exp in (("AddAA", e_add), ("SubAA", e_sub)):
                     got = self.op_aa(which, A2, B2)
@@ -576,12 +585,18 @@ class Eng:
                     res.append(got)
         return cls, res
 
-    def battery_unary(self, P, rp):
+    def battery_unary(self, P, rp, aa="with"):
         M = self.M
         cls = unary_cls(M, P)
-        A3 = self.enc3(rp)
         det = {"P": P, "rep_P": rp}
         res = []
+        if aa == "only":
+            if P is not None:
+                got = self.op_nega(self.enc2(P))
+                self.cmp(self.pre + "NegA", M.neg(P), got, cls, "none", det)
+                res.append(got)
+            return cls, res
+        A3 = self.enc3(rp)
         todo = [("neg", M.neg(P)), ("dbl", M.dbl(P))]
         if self.fn["tpl"] is not None:
             todo.append(("tpl", M.tpl(P)))
@@ -601,9 +616,10 @@ class Eng:
                     got = self.op_au(op, A2, al)
                     self.cmp(op, exp, got, cls, al, det)
                     res.append(got)
-            got = self.op_nega(A2)
-            self.cmp(self.pre + "NegA", M.neg(P), got, cls, "none", det)
-            res.append(got)
+            if aa == "with":
+                got = self.op_nega(A2)
+                self.cmp(self.pre + "NegA", M.neg(P), got, cls, "none", det)
+                res.append(got)
         return cls, res
 
     def flush_counts(self):
@@ -761,7 +777,7 @@ def check_hasorder(ctx, eng, sc, P, order, q, mbits):
 MBITS = (32, 64, 96, 128, 192, 352, 384)
 
 
-def run_pairs(ctx, eng, pts, rows, maxq, label):
+def run_pairs(ctx, eng, pts, rows, maxq, label, aa="with"):
     """for every P = pts[i], i in rows: the unary battery, then the pair battery against all Q (or,
     if the set is larger than maxq, against the special Q's plus a random sample)"""
     M, rng, lib = eng.M, ctx.rng, ctx.lib
@@ -770,8 +786,8 @@ def run_pairs(ctx, eng, pts, rows, maxq, label):
         P = pts[i]
         rp = eng.draw_rep(rng, P)
         ucls = unary_cls(M, P)
-        if ctx.case(["unary", label, P, rp], "unary:" + ucls):
-            _, res = eng.battery_unary(P, rp)
+        if ctx.case(["unary", label, P, rp] + ([aa] if aa != "with" else []), "unary:" + ucls):
+            _, res = eng.battery_unary(P, rp, aa)
             ctx.digest(repr(res))
             lib.release()
         if maxq >= len(pts):
@@ -788,9 +804,11 @@ def run_pairs(ctx, eng, pts, rows, maxq, label):
         for Q in qs:
             rp, rq = eng.draw_rep(rng, P), eng.draw_rep(rng, Q)
             cls = pair_cls(M, P, Q)
-            if not ctx.case(["pair", label, P, Q, rp, rq], "pair:" + cls):
+            if aa == "only" and (P is None or Q is None):
                 continue
-            _, res = eng.battery_pair(P, Q, rp, rq)
+            if not ctx.case(["pair", label, P, Q, rp, rq] + ([aa] if aa != "with" else []), "pair:" + cls):
+                continue
+            _, res = eng.battery_pair(P, Q, rp, rq, aa)
             ctx.digest(repr(res))
             lib.release()
     eng.flush_counts()
@@ -1342,7 +1360,11 @@ def unit_ss(ctx):
     sc = Scal(eng)
     if part == "pairs":
         rows = [i for i in range(len(pts)) if i % pr["nchunks"] == pr["chunk"]]
-        run_pairs(ctx, eng, pts, rows, pr.get("maxq", 1 << 30), label)
+        run_pairs(ctx, eng, pts, rows, pr.get("maxq", 1 << 30), label, "no")
+    elif part == "affine":
+        # the direct affine functions get stacks of exactly ecpAddAA_deep / ecpSubAA_deep / ecpIsOnA_deep
+        run_pairs(ctx, eng, pts, list(range(len(pts))), pr.get("maxq", 12), label, "only")
+        run_ison(ctx, eng, sc, pts, label, False, 40)
     elif part == "scalar":
         byo = {}
         for P in pts[1:]:
@@ -1357,7 +1379,6 @@ def unit_ss(ctx):
         run_addmul(ctx, eng, sc, cand, label, pr.get("nrand", 40))
         H = len(pts)
         run_hasorder(ctx, eng, sc, cand[:4], H, label)
-        run_ison(ctx, eng, sc, pts, label, False, 40)
         # a point of large order: random point of the whole curve, scalars around the group order p + 1
         lib = ctx.lib
         for it in range(pr.get("nbig", 4)):
@@ -1379,3 +1400,493 @@ def unit_ss(ctx):
         raise Harness("unknown part")
     eng.flush_counts()
     ctx.note("curves", ["%s #E=p+1 subgroup=%d" % (eng.tag, len(pts))])
+
+
+# ----------------------------------------------------------------------------------------------
+# units: binary curves whose coefficients lie in a small subfield GF(2^k) of GF(2^m): E(GF(2^k)) is a
+# complete small subgroup of E(GF(2^m)) (all pairs), #E(GF(2^m)) follows from Weil's recursion
+# ----------------------------------------------------------------------------------------------
+
+def b2_setup(ctx):
+    pr = ctx.params
+    poly = pr["poly"]
+    f = 1
+    for e in poly:
+        if e:
+            f |= 1 << e
+    if not gf2poly.is_irreducible(f):
+        raise Harness("catalogue polynomial is reducible")
+    F = ec2m.Field2(f)
+    k = pr["k"]
+    sub = ec2m.subfield_elements(F, k)
+    a, b = sub[pr["ia"] % len(sub)], sub[1 + pr["ib"] % (len(sub) - 1)]
+    M = Mod2(poly, a, b)
+    pts = [None]
+    for x in sub:
+        for y in sub:
+            if M.is_on((x, y)):
+                pts.append((x, y))
+    pts = [None] + sorted(pts[1:])
+    N = ec2m.subfield_curve_order(M.F, a, b, k)
+    if (len(pts) - (1 << k) - 1) ** 2 > 4 << k or N % len(pts):
+        raise Harness("subfield point count inconsistent")
+    S = set(pts)
+    for P in pts[:8]:
+        for Q in pts[-8:]:
+            if M.add(P, Q) not in S:
+                raise Harness("subfield points not closed")
+    return M, pts, N
+
+
+def unit_b2(ctx):
+    pr = ctx.params
+    M, pts, N = b2_setup(ctx)
+    label = "b2m%dk%d" % (M.m, pr["k"])
+    rng, lib = ctx.rng, ctx.lib
+    part = pr["part"]
+    H = len(pts)
+    byo = {}
+    for P in pts[1:]:
+        byo.setdefault(point_order(M, P), P)
+    cand = [(byo[o], o) for o in sorted(byo, reverse=True)][:6]
+    if (byo[2], 2) not in cand:
+        cand.append((byo[2], 2))
+    if part == "demo":
+        eng = Eng(ctx, M)
+        demo_common(ctx, eng, Scal(eng), cand, label)
+        return
+    base = cand[0][0]
+    eng = Eng(ctx, M, group=(base, cand[0][1], 2))
+    sc = Scal(eng)
+    if part == "pairs":
+        rows = [i for i in range(H) if i % pr["nchunks"] == pr["chunk"]]
+        run_pairs(ctx, eng, pts, rows, pr.get("maxq", 1 << 30), label, "no")
+    elif part == "affine":
+        run_pairs(ctx, eng, pts, list(range(H)), pr.get("maxq", 24), label, "only")
+        run_ison(ctx, eng, sc, pts, label, False, 40)
+    elif part == "scalar":
+        for P, o in cand[:2] + cand[-1:]:
+            run_mul_all(ctx, eng, sc, P, o, label, every=5)
+        for P, o in cand[:2] + cand[-1:]:
+            run_mul_long(ctx, eng, sc, P, o, label, pr.get("nlong", 3))
+        run_addmul(ctx, eng, sc, cand, label, pr.get("nrand", 30))
+        run_hasorder(ctx, eng, sc, cand[:3] + cand[-1:], H, label)
+        # points of the big field: scalars around the full group order N
+        for it in range(pr.get("nbig", 3)):
+            P = None
+            while P is None:
+                P = M.lift_x(M.rand_elem(rng))
+            if M.mul(N, P) is not None:
+                raise Harness("Weil order not confirmed by the model")
+            for d in (N, N - 1, N + 1, 2 * N, rng.randrange(N)):
+                mb = 32 * ((max(d.bit_length(), 1) + 31) // 32) + 32 * (it % 2)
+                exp = M.mul(d % N, P)
+                if not ctx.case(["mul", label, P, d, mb], "mul:big-order/" + scalar_cls(d, N)):
+                    continue
+                got = sc.mul(P, d, mb)
+                if got != exp:
+                    eng.bad("ecMulA", "wrong-result", "big-order/" + scalar_cls(d, N),
+                            {"P": P, "d": d, "length_bits": mb, "expected": exp, "got": got})
+                ctx.digest(repr(got))
+                lib.release()
+        run_validators_2(ctx, M, N, base, label)
+    else:
+        raise Harness("unknown part")
+    eng.flush_counts()
+    ctx.note("curves", ["%s #E(GF(2^%d))=%d, #E=%d" % (eng.tag, pr["k"], H, N)])
+
+
+def run_validators_2(ctx, M, N, base, label):
+    """ec2IsValid / ec2SeemsValidGroup / ec2IsSafeGroup as ec2.h defines them"""
+    lib = ctx.lib
+    m = M.m
+
+    def build(Mx, group):
+        f = make_field(lib, Mx, keep=False)
+        fld = Fld(lib, f)
+        ec = make_curve(lib, Mx, f, fld, keep=False, group=group)
+        return f, fld, ec
+
+    if ctx.case(["ec2IsValid", label], "valid:valid"):
+        f, fld, ec = build(M, None)
+        r = lib.ec2IsValid(ec, lib.alloc(lib.ec2IsValid_deep(fld.n)))
+        if r != 1:
+            ctx.violation("ec2IsValid:wrong-answer:valid", "ec2IsValid rejects a valid curve", {"curve": M.tag(), "got": r})
+        ctx.digest(r)
+        lib.release()
+    # Hasse: |order*cofactor - (2^m + 1)| <= 2^(m/2 + 1)   <=>   t^2 <= 4 * 2^m
+    h = isqrt(4 << m)
+    groups = []
+    e2 = N & -N
+    for cof in (2, 4):
+        if N % cof == 0:
+            groups.append(("true-order-cofactor%d" % cof, base, N // cof, cof, 1))
+    for t, exp in ((h, 1), (-h, 1), (h + 1, 0), (-h - 1, 0), (0, 1), (1 << (m // 2 + 8), 0), (-(1 << (m - 3)), 0),
+                   (1 << (m - 1), 0), (3, 1)):
+        groups.append(("hasse-%s" % ("inside" if exp else "outside"), base, (1 << m) + 1 + t, 1, exp))
+    off = (base[0], base[1] ^ 1)
+    if not M.is_on(off):
+        groups.append(("base-off-curve", off, N // 2, 2, 0))
+    for name, bp, order, cof, exp in groups:
+        if not ctx.case(["ec2SeemsValidGroup", label, name, bp, order, cof], "group:" + name):
+            continue
+        f, fld, ec = build(M, (bp, order, cof))
+        r = lib.ec2SeemsValidGroup(ec, lib.alloc(lib.ec2SeemsValidGroup_deep(fld.n, fld.deep)))
+        if r != exp:
+            ctx.violation("ec2SeemsValidGroup:wrong-answer:" + name, "ec2SeemsValidGroup disagrees with its header "
+                          "(|order*cofactor - (2^m+1)| <= 2^(m/2+1))",
+                          {"curve": M.tag(), "m": m, "base": bp, "order": order, "cofactor": cof,
+                           "order*cofactor-(2^m+1)": order * cof - (1 << m) - 1, "bound_isqrt(4*2^m)": h,
+                           "expected": exp, "got": r})
+        ctx.digest(r)
+        lib.release()
+    cands = {N // e2, N // 2, (1 << m), 3, 7, 11}
+    n, d = N // e2, 3
+    while d < 2000:
+        while n % d == 0:
+            cands.add(d)
+            n //= d
+        d += 2
+    if n > 1:
+        cands.add(n)
+    for order in sorted(c for c in cands if c > 0):
+        for mov in (0, 1, 4, 30):
+            prime = refec.is_probable_prime(order)
+            exp = 1 if prime and order != (1 << m) and all(pow(2, m * i, order) != 1 % order for i in range(1, mov + 1)) else 0
+            name = "safe" if exp else ("composite-order" if not prime else "mov")
+            if not ctx.case(["ec2IsSafeGroup", label, order, mov], "safegroup:" + name):
+                continue
+            f, fld, ec = build(M, (base, order, 1))
+            r = lib.ec2IsSafeGroup(ec, mov, lib.alloc(lib.ec2IsSafeGroup_deep(fld.n)))
+            if r != exp:
+                ctx.violation("ec2IsSafeGroup:wrong-answer:" + name, "ec2IsSafeGroup disagrees with its header",
+                              {"curve": M.tag(), "order": order, "mov_threshold": mov, "expected": exp, "got": r})
+            ctx.digest(r)
+            lib.release()
+
+
+# ----------------------------------------------------------------------------------------------
+# units: standard curves (bign 128/192/256, bign96, GOST R 34.10, DSTU 4145)
+# ----------------------------------------------------------------------------------------------
+
+def _define(header, name):
+    txt = open(os.path.join(build.REPO, "include/bee2/crypto", header), encoding="utf-8", errors="replace").read()
+    m = re.search(r"#define\s+%s\s+(.+)" % name, txt)
+    if not m:
+        raise Harness("no #define " + name)
+    e = m.group(1).strip()
+    e = re.sub(r"O_OF_B\((\d+)\)", lambda k: str((int(k.group(1)) + 7) // 8), e)
+    if not re.fullmatch(r"[\d\s()+*/-]+", e):
+        raise Harness("cannot evaluate " + name)
+    return int(eval(e))
+
+
+def load_std(lib, fam, name):
+    """-> (model, G or None, order, cofactor) from the library's own parameter tables"""
+    le = lambda b: int.from_bytes(b, "little")
+    if fam in ("bign", "bign96"):
+        class BP(ctypes.Structure):
+            _fields_ = [("l", c_size_t), ("p", ctypes.c_ubyte * 64), ("a", ctypes.c_ubyte * 64), ("b", ctypes.c_ubyte * 64),
+                        ("q", ctypes.c_ubyte * 64), ("yG", ctypes.c_ubyte * 64), ("seed", ctypes.c_ubyte * 8)]
+        buf = lib.alloc(ctypes.sizeof(BP))
+        r = (lib.bignParamsStd if fam == "bign" else lib.bign96ParamsStd)(buf, lib.cstr(name))
+        if r != 0:
+            raise Harness("ParamsStd(%s) = %d" % (name, r))
+        P = BP.from_buffer_copy(lib.rd(buf, ctypes.sizeof(BP)))
+        lib.release()
+        no = (2 * P.l + 7) // 8
+        M = ModP(le(bytes(P.p)[:no]), le(bytes(P.a)[:no]), le(bytes(P.b)[:no]))
+        return M, (0, le(bytes(P.yG)[:no])), le(bytes(P.q)[:no]), 1
+    if fam == "g12s":
+        FS, OS = _define("g12s.h", "G12S_FIELD_SIZE"), _define("g12s.h", "G12S_ORDER_SIZE")
+
+        class GP(ctypes.Structure):
+            _fields_ = [("l", ctypes.c_uint32), ("p", ctypes.c_ubyte * FS), ("a", ctypes.c_ubyte * FS),
+                        ("b", ctypes.c_ubyte * FS), ("q", ctypes.c_ubyte * OS), ("n", ctypes.c_uint32),
+                        ("xP", ctypes.c_ubyte * FS), ("yP", ctypes.c_ubyte * FS)]
+        buf = lib.alloc(ctypes.sizeof(GP))
+        r = lib.g12sParamsStd(buf, lib.cstr(name))
+        if r != 0:
+            raise Harness("g12sParamsStd(%s) = %d" % (name, r))
+        P = GP.from_buffer_copy(lib.rd(buf, ctypes.sizeof(GP)))
+        lib.release()
+        p = le(bytes(P.p)[:FS * P.l // 512])
+        no = (p.bit_length() + 7) // 8
+        M = ModP(p, le(bytes(P.a)[:no]), le(bytes(P.b)[:no]))
+        return M, (le(bytes(P.xP)[:no]), le(bytes(P.yP)[:no])), le(bytes(P.q)[:P.l // 8]), int(P.n)
+    if fam == "dstu":
+        DS = _define("dstu.h", "DSTU_SIZE")
+
+        class DP(ctypes.Structure):
+            _fields_ = [("p", ctypes.c_uint16 * 4), ("A", ctypes.c_ubyte), ("B", ctypes.c_ubyte * DS),
+                        ("n", ctypes.c_ubyte * DS), ("c", ctypes.c_uint32), ("P", ctypes.c_ubyte * (2 * DS))]
+        buf = lib.alloc(ctypes.sizeof(DP))
+        r = lib.dstuParamsStd(buf, lib.cstr(name))
+        if r != 0:
+            raise Harness("dstuParamsStd(%s) = %d" % (name, r))
+        P = DP.from_buffer_copy(lib.rd(buf, ctypes.sizeof(DP)))
+        lib.release()
+        poly = [int(v) for v in P.p]
+        no = (poly[0] + 7) // 8
+        M = Mod2(poly, int(P.A), le(bytes(P.B)[:no]))
+        G = (le(bytes(P.P)[:no]), le(bytes(P.P)[no:2 * no]))
+        if G == (0, 0):
+            G = None
+        return M, G, le(bytes(P.n)[:no]), int(P.c)
+    raise Harness("unknown family")
+
+
+class MulMemo:
+    """model scalar multiples with the point's (model-verified) order used for reduction"""
+
+    def __init__(self, M):
+        self.M, self.ord, self.memo = M, {}, {}
+
+    def set_order(self, P, o):
+        if self.M.mul(o, P) is not None:
+            raise Harness("model: claimed order is wrong")
+        self.ord[P] = o
+
+    def mul(self, d, P):
+        o = self.ord[P]
+        d %= o
+        if d == 0:
+            return None
+        if 2 * d > o:
+            return self.M.neg(self.mul(o - d, P))
+        k = (P, d)
+        if k not in self.memo:
+            self.memo[k] = self.M.mul(d, P)
+        return self.memo[k]
+
+
+def swu_anchor(lib, M):
+    """model anchor: the bakeSWU vector of STB 34.101.66 (table B.4 data, test/crypto/bake_test.c); the octet
+    string -> field element step (belt-wblock, then mod p) is done with the library's belt"""
+    X = bytes.fromhex("AD1362A8F9A3D42FBE1B8E6F1C88AAD50F51D91347617C20BD4AB07AEF4F26A1")
+    W = bytes.fromhex("014417D3355557317D2E2AB6D08754878D19E8D97B71FDC95DBB2A9B894D16D7"
+                      "7704A0B5CAA9CDA10791E4760671E1050DDEAB7083A7458447866ADB01473810")
+    H = lib.mk(X + bytes(16))
+    st = lib.alloc(lib.beltWBL_keep())
+    lib.beltWBLStart(st, lib.mk(bytes(16)), 16)
+    lib.beltWBLStepE(H, 48, st)
+    s = int.from_bytes(lib.rd(H, 48), "little") % M.p
+    lib.release()
+    got = swu_model(M.p, M.a, M.b, s)
+    exp = (int.from_bytes(W[:32], "little"), int.from_bytes(W[32:], "little"))
+    if got != exp:
+        raise Harness("SWU model does not reproduce the STB 34.101.66 vector")
+
+
+def std_setup(ctx):
+    pr = ctx.params
+    lib, rng = ctx.lib, ctx.rng
+    M, G, q, cof = load_std(lib, pr["fam"], pr["name"])
+    if not refec.is_probable_prime(q):
+        raise Harness("standard order is not prime")
+    N = q * cof
+    if M.kind == "p":
+        if (N - M.p - 1) ** 2 > 4 * M.p:
+            raise Harness("Hasse")
+    else:
+        if not gf2poly.is_irreducible(M.fpoly):
+            raise Harness("standard polynomial reducible")
+    # fixed generator of the order-q subgroup: the standard one, or (DSTU) derived from a fixed abscissa search
+    if G is None:
+        x = 2
+        while G is None:
+            P = M.lift_x(x)
+            x += 1
+            if P is not None:
+                P = M.mul(cof, P)
+                if P is not None:
+                    G = P
+    if not M.is_on(G):
+        raise Harness("standard base point not on the model curve")
+    mm = MulMemo(M)
+    mm.set_order(G, q)
+    T = None
+    if cof % 2 == 0:
+        x = 3
+        while T is None:
+            P = M.lift_x(x)
+            x += 1
+            if P is None:
+                continue
+            R = M.mul(q, P)
+            while R is not None and M.dbl(R) is not None:
+                R = M.dbl(R)
+            T = R
+        mm.set_order(T, 2)
+    return M, G, q, cof, N, T, mm
+
+
+def std_scalars(rng, q, fbits):
+    ds = [0, 1, 2, 3, q - 2, q - 1, q, q + 1, 2 * q - 1, 2 * q, 2 * q + 1, 3 * q, (q - 1) // 2, (q + 1) // 2]
+    qb = q.bit_length()
+    for k in (31, 32, 33, 63, 64, 65, 127, 128, qb - 1, qb, qb + 1, qb + 31):
+        ds += [(1 << k) - 1, 1 << k]
+    ds += [rng.randrange(q) for _ in range(4)]
+    ds += [rng.getrandbits(fbits + 32), rng.getrandbits(fbits + 64), rng.getrandbits(40), rng.getrandbits(100)]
+    return ds
+
+
+def std_lens(d, fbits):
+    r32 = lambda v: 32 * ((v + 31) // 32)
+    need = max(32, r32(d.bit_length()))
+    return sorted({mb for mb in (need, r32(fbits), r32(fbits) + 32, r32(fbits) + 64) if mb >= need})
+
+
+def unit_std(ctx):
+    pr = ctx.params
+    lib, rng = ctx.lib, ctx.rng
+    M, G, q, cof, N, T, mm = std_setup(ctx)
+    label = pr["name"]
+    part = pr["part"]
+    fbits = M.bits
+    if part == "demo":
+        eng = Eng(ctx, M)
+        cand = [(G, q)] + ([(T, 2)] if T is not None else [])
+        demo_common(ctx, eng, Scal(eng), cand, label)
+        return
+    eng = Eng(ctx, M, group=(G, q, cof))
+    sc = Scal(eng)
+    k1 = rng.randrange(2, q)
+    K = mm.M.mul(k1, G)
+    mm.set_order(K, q)
+    nG = M.neg(G)
+    mm.set_order(nG, q)
+    pts = [(G, q), (nG, q), (K, q)]
+    if T is not None:
+        GT = M.add(G, T)
+        mm.set_order(GT, 2 * q)
+        pts += [(T, 2), (GT, 2 * q)]
+    if part == "mul":
+        sel = pts[pr["chunk"]::pr["nchunks"]]
+        ds = std_scalars(rng, q, fbits)
+        for P, o in sel:
+            for d in ds:
+                exp = mm.mul(d, P)
+                for mb in std_lens(d, fbits):
+                    if not ctx.case(["mul", label, P, d, mb], "mul:std/" + scalar_cls(d, o)):
+                        continue
+                    got = check_mul(ctx, eng, sc, P, o, d, mb, exp, "/std")
+                    ctx.digest(repr(got))
+                    lib.release()
+    elif part == "other":
+        # --- multi-scalar sums
+        r1, r2, r3 = rng.randrange(q), rng.randrange(q), rng.getrandbits(fbits + 20)
+        fb = 32 * ((fbits + 31) // 32)
+        combos = [[(G, r1, fb), (G, q - r1, fb)], [(G, r1, fb), (nG, r1, fb)], [(G, 1, 32), (G, q - 1, fb)],
+                  [(G, q, fb), (K, 0, 32)], [(G, 0, 32), (K, 0, fb)], [(G, r1, fb), (K, r2, fb)],
+                  [(G, r1, fb), (K, r2, fb), (nG, r3, fb + 32)], [(G, r1, fb), (K, r2, fb), (G, q - r1, fb)],
+                  [(K, r2, fb), (G, r1, fb), (K, q - r2, fb), (nG, r1, fb)], [(G, 2, 32), (G, 3, 32)],
+                  [(G, (1 << 64) - 1, 64), (K, 1 << 63, 64)], [(K, r3, fb + 32)], [(G, 2 * q, fb + 32), (G, 5, 32)]]
+        if T is not None:
+            combos += [[(T, 1, 32), (T, 1, 32)], [(G, r1, fb), (T, 1, 32)], [(pts[-1][0], q, fb), (T, 3, 32)],
+                       [(pts[-1][0], 2 * q, fb + 32)], [(T, r2, fb), (G, r1, fb)]]
+        for terms in combos:
+            exp = None
+            for P, d, _ in terms:
+                exp = M.add(exp, mm.mul(d, P))
+            cls = "std/k%d" % len(terms) + ("/sum=O" if exp is None else "")
+            if not ctx.case(["addmul", label, [list(t) for t in terms]], "addmul:" + cls):
+                continue
+            got = check_addmul(ctx, eng, sc, terms, exp, cls)
+            ctx.digest(repr(got))
+            lib.release()
+        # --- order test
+        fb1 = fb + 32
+        hs = [(G, q, q, fb), (G, q, q, fb1), (G, q, q - 1, fb), (G, q, q + 1, fb1), (G, q, 2 * q, fb1), (K, q, q, fb),
+              (G, q, 1, 32), (G, q, 2, 32), (G, q, rng.randrange(1, q), fb)]
+        if T is not None:
+            GT = pts[-1][0]
+            hs += [(T, 2, 2, 32), (T, 2, q, fb), (GT, 2 * q, q, fb), (GT, 2 * q, 2 * q, fb1), (GT, 2 * q, 2, 32), (T, 2, 1, 32)]
+        for P, o, qq, mb in hs:
+            cls = "q=order" if qq == o else "order|q(tolerated)" if qq % o == 0 else "order-does-not-divide-q"
+            if not ctx.case(["hasorder", label, P, qq, mb], "hasorder:std/" + cls):
+                continue
+            r, _ = check_hasorder(ctx, eng, sc, P, o, qq, mb)
+            ctx.digest(r)
+            lib.release()
+        # --- group law on the special pairs
+        L = [None, G, nG, M.dbl(G), K] + ([T, pts[-1][0]] if T is not None else [])
+        run_pairs(ctx, eng, L, list(range(len(L))), 1 << 30, label, "no")
+    elif part == "affine":
+        L = [None, G, M.neg(G), M.dbl(G), K] + ([T, pts[-1][0]] if T is not None else [])
+        run_pairs(ctx, eng, L, list(range(len(L))), 1 << 30, label, "only")
+        more = []
+        while len(more) < 12:
+            P = M.lift_x(M.rand_elem(rng))
+            if P is not None:
+                more.append(P)
+        run_ison(ctx, eng, sc, L + more, label, False, 16)
+        if M.kind == "p":
+            if pr["name"].endswith("45.3.3") and pr["fam"] == "bign":
+                swu_anchor(lib, M)
+            p = M.p
+            run_swu(ctx, eng, label, [0, 1, 2, p - 1, p - 2, (p - 1) // 2] + [rng.randrange(p) for _ in range(pr.get("nswu", 10))])
+    elif part == "valid":
+        std_validators(ctx, M, G, q, cof, label)
+    else:
+        raise Harness("unknown part")
+    eng.flush_counts()
+    ctx.note("curves", ["%s: %s" % (label, eng.tag[:60])])
+
+
+def std_validators(ctx, M, G, q, cof, label):
+    lib = ctx.lib
+
+    def build(group):
+        f = make_field(lib, M, keep=False)
+        fld = Fld(lib, f)
+        return fld, make_curve(lib, M, f, fld, keep=False, group=group)
+
+    P2 = "ecp" if M.kind == "p" else "ec2"
+    two_m = M.p if M.kind == "p" else (1 << M.m)
+    h = isqrt(4 * two_m)
+    if ctx.case([P2 + "IsValid", label], "valid:valid"):
+        fld, ec = build(None)
+        if M.kind == "p":
+            r = lib.ecpIsValid(ec, lib.alloc(lib.ecpIsValid_deep(fld.n, fld.deep)))
+        else:
+            r = lib.ec2IsValid(ec, lib.alloc(lib.ec2IsValid_deep(fld.n)))
+        if r != 1:
+            ctx.violation(P2 + "IsValid:wrong-answer:valid", "standard curve rejected", {"curve": label, "got": r})
+        ctx.digest(r)
+        lib.release()
+    groups = [("true-order", G, q, cof, 1)]
+    for t, exp in ((h, 1), (-h, 1), (h + 1, 0), (-h - 1, 0), (1 << (M.bits // 2 + 6), 0), (-(1 << (M.bits - 8)), 0)):
+        groups.append(("hasse-%s" % ("inside" if exp else "outside"), G, two_m + 1 + t, 1, exp))
+    for name, bp, order, cf, exp in groups:
+        if not ctx.case([P2 + "SeemsValidGroup", label, name, order, cf], "group:" + name):
+            continue
+        fld, ec = build((bp, order, cf))
+        if M.kind == "p":
+            r = lib.ecpSeemsValidGroup(ec, lib.alloc(lib.ecpSeemsValidGroup_deep(fld.n, fld.deep)))
+        else:
+            r = lib.ec2SeemsValidGroup(ec, lib.alloc(lib.ec2SeemsValidGroup_deep(fld.n, fld.deep)))
+        if r != exp:
+            ctx.violation(P2 + "SeemsValidGroup:wrong-answer:" + name, P2 + "SeemsValidGroup disagrees with its header",
+                          {"curve": label, "order": order, "cofactor": cf, "order*cofactor-(field size+1)": order * cf - two_m - 1,
+                           "hasse_bound": h, "expected": exp, "got": r})
+        ctx.digest(r)
+        lib.release()
+    base = M.p if M.kind == "p" else (1 << M.m)
+    for order in (q, q * cof if cof > 1 else q + 2, two_m if M.kind == "2" else M.p):
+        for mov in (0, 1, 8, 31):
+            prime = refec.is_probable_prime(order)
+            exp = 1 if prime and order != two_m and all(pow(base, i, order) != 1 for i in range(1, mov + 1)) else 0
+            name = "safe" if exp else ("composite-order" if not prime else "anomalous" if order == two_m else "mov")
+            if not ctx.case([P2 + "IsSafeGroup", label, order, mov], "safegroup:" + name):
+                continue
+            fld, ec = build((G, order, 1))
+            if M.kind == "p":
+                r = lib.ecpIsSafeGroup(ec, mov, lib.alloc(lib.ecpIsSafeGroup_deep(fld.n)))
+            else:
+                r = lib.ec2IsSafeGroup(ec, mov, lib.alloc(lib.ec2IsSafeGroup_deep(fld.n)))
+            if r != exp:
+                ctx.violation(P2 + "IsSafeGroup:wrong-answer:" + name, P2 + "IsSafeGroup disagrees with its header",
+                              {"curve": label, "order": order, "mov_threshold": mov, "expected": exp, "got": r})
+            ctx.digest(r)
+            lib.release()
